@@ -4,6 +4,7 @@ CONSTANTS
   MaxOps = 5
   EmitAt = 99
 INVARIANT RestoredIsSaved
+INVARIANT PathOnlyChangedByRecompute
 INVARIANT DiskNeverAhead
 
 CHECK_DEADLOCK FALSE
